@@ -114,3 +114,53 @@ Proof.
   - apply NoDup_Permutation; [now apply nodupzb_sound|now apply nodupzb_sound|]. rewrite forallb_forall in H5, H6.
     intros x. split; intros Hx; apply zmem_In; auto.
 Qed.
+
+(** ---------------------------------------------------------------- the identity transcript: no hypothesis between the runs
+    When the aromaticity pass changes nothing (the recorded graph IS the graph after squash_atoms; no aromatic atom) and
+    every cut bond is re-created with the molecule's own order ([faithful]: an integer order between atoms that are not
+    both aromatic), the two transcript hypotheses and [corr_orders] hold by themselves. *)
+From CGV Require Import Compose.CutSkeleton Compose.CutWf Compose.ReturnedIsoCar.
+Definition faithful (C : cut) : Prop := forall b, In b (cuts C) -> cut_faithful C b = true.
+Definition faithfulb (C : cut) : bool := forallb (cut_faithful C) (cuts C).
+Lemma faithfulb_sound C : faithfulb C = true -> faithful C.
+Proof. unfold faithfulb, faithful. rewrite forallb_forall. auto. Qed.
+Lemma result_order_faithful C x y : faithful C -> result_order C x y = option_map cb_ord (find_bond C x y).
+Proof.
+  intros F. unfold result_order. destruct (find_bond C x y) as [b|] eqn:E; [|reflexivity]. cbn [option_map]. f_equal.
+  destruct (is_cut C b) eqn:Ic; [|reflexivity]. apply find_some in E as [Hb _].
+  assert (In b (cuts C)) as Hc by (unfold cuts; apply filter_In; auto). specialize (F b Hc). unfold cut_faithful in F. now apply pyval_eqb_sound.
+Qed.
+Lemma corr_orders_id_any C1 C2 m1 m2 : same_mol C1 C2 -> faithful C1 -> faithful C2 ->
+  skeleton C1 true m1 -> skeleton C2 true m2 -> corr_orders C1 C2 m1 m2.
+Proof.
+  intros SM F1 F2 S1 S2 x y Fx Fy. destruct (sk_edges _ _ _ S1 x y Fx Fy) as (_ & -> & _).
+  assert (In x (flat C2) /\ In y (flat C2)) as [Fx2 Fy2] by (split; eapply sm_flat_in; eauto).
+  destruct (sk_edges _ _ _ S2 x y Fx2 Fy2) as (_ & -> & _). rewrite !result_order_faithful by assumption.
+  unfold find_bond. now rewrite (sm_bonds _ _ SM).
+Qed.
+
+Theorem text_returned_iso_id fo C1 C2 a1 defs1 B1 a2 defs2 B2 :
+  wf_cut C1 -> wf_cut C2 -> same_mol C1 C2 -> heavy_payload C1 -> heavy_payload C2 -> faithful C1 -> faithful C2 ->
+  written fo C1 a1 defs1 B1 -> written fo C2 a2 defs2 B2 ->
+  exists st1 fd1 st2 fd2,
+    from_text fo (cut_string a1 defs1) = Ok st1 /\ st_dicts st1 = [fd1] /\
+    from_text fo (cut_string a2 defs2) = Ok st2 /\ st_dicts st2 = [fd2] /\
+    forall fo1 fo2 ms1 ms2,
+      resolve_step_full (st_legacy st1) (is_all_atom st1) fd1 (st_mol st1) (Some (fo_m3 fo1)) = Ok fo1 ->
+      resolve_step_full (st_legacy st2) (is_all_atom st2) fd2 (st_mol st2) (Some (fo_m3 fo2)) = Ok fo2 ->
+      sort_mapping (fo_m4 fo1) = Ok ms1 -> sort_mapping (fo_m4 fo2) = Ok ms2 ->
+      returned_iso_car after_sort_key C1 C2 (fo_m3 fo1) (fo_m4 fo1) (fo_m3 fo2) (fo_m4 fo2) (fo_mol fo1) (fo_mol fo2) ms1 ms2.
+Proof.
+  intros W1 W2 SM P1 P2 F1 F2 Wr1 Wr2.
+  destruct (written_from_text fo C1 a1 defs1 B1 W1 Wr1) as (fd1 & S1 & T1 & Bs1).
+  destruct (written_from_text fo C2 a2 defs2 B2 W2 Wr2) as (fd2 & S2 & T2 & Bs2).
+  exists (init B1 [fd1] true true), fd1, (init B2 [fd2] true true), fd2.
+  split; [exact S1|]. split; [reflexivity|]. split; [exact S2|]. split; [reflexivity|].
+  intros fo1 fo2 ms1 ms2 R1 R2 M1 M2.
+  change (resolve_step_full true true fd1 B1 (Some (fo_m3 fo1)) = Ok fo1) in R1. change (resolve_step_full true true fd2 B2 (Some (fo_m3 fo2)) = Ok fo2) in R2.
+  destruct (all_atom_step_car C1 fd1 B1 _ fo1 W1 T1 Bs1 P1 R1) as (Sk1 & E1 & Ak1 & _).
+  destruct (all_atom_step_car C2 fd2 B2 _ fo2 W2 T2 Bs2 P2 R2) as (Sk2 & E2 & Ak2 & _).
+  assert (corr_orders C1 C2 (fo_m3 fo1) (fo_m3 fo2)) as Corr by (rewrite E1, E2; now apply corr_orders_id_any).
+  now destruct (returned_graphs_iso_any C1 C2 fd1 fd2 B1 B2 _ _ fo1 fo2 ms1 ms2 W1 SM W2 P1 P2 T1 Bs1 T2 Bs2 R1 R2
+                  (transcript_ok_id C1 _ Ak1) (transcript_ok_id C2 _ Ak2) Corr M1 M2) as (_ & _ & H).
+Qed.
